@@ -41,7 +41,15 @@ def main(args) -> int:
     if hasattr(mod, "replay") and body.get("kind") != "obligation":
         still = bool(mod.replay(ck, body))
     else:
-        mod.run(ck)
+        try:
+            mod.run(ck)
+        except Exception as e:  # noqa: BLE001
+            # the recorded failure was an exception raised inside the library while a scenario drove it: it recurs iff the
+            # same exception class comes out again
+            if ":library-raised:" in str(body.get("key", "")) and type(e).__name__ == body.get("exception"):
+                ck.violation(body["key"], "raised again", {})
+            else:
+                raise
         if body.get("kind") == "obligation":
             still = bool(ck.proof_problems or ck.corr_problems or ck.violations)
         else:
